@@ -6,6 +6,9 @@
  * script: lines "<thread> <op> ...":
  *     <t> conn <handle> <ver> <suite-hex> <want: full|id|ticket|psk>   a connection (handshake, data both ways, closure, deletion)
  *     <t> keyadd <k> | keydel <k>                                      session ticket key list of the shared server keys
+ *     0 ticketcb <usec>     (before the threads start) register a session ticket callback on the shared server keys; it
+ *                           takes up to <usec> microseconds, accepts a key the library found and supplies none itself
+ *   <ver> may be T11, T12, T13 or T13F (TLS 1.3 with the finite-field group ffdhe2048 only)
  * Every thread executes its own lines in order.  Each operation is logged with two stamps of a global atomic
  * counter (taken right before and right after the operation); every mutex acquisition / release of the library
  * is logged through link-time wrappers with a stamp taken while the mutex is held.
@@ -17,6 +20,8 @@
 #include <pthread.h>
 #include <stdatomic.h>
 #include <stdarg.h>
+#include <time.h>
+#include <sched.h>
 #include "matrixssl/matrixsslApi.h"
 #include "matrixssl/matrixssllib.h"
 
@@ -26,6 +31,7 @@
 #define MAXEV 60000
 
 static atomic_long g_clock;
+static atomic_int g_loaded[64];     /* session ticket key names that may be in the shared list */
 static sslKeys_t *g_ks, *g_kc;
 
 typedef struct { char s[200]; } ev_t;
@@ -38,6 +44,7 @@ typedef struct
     struct { char name[16]; sslSessionId_t *sid; } h[48];
     struct { ssl_t *c, *s; } slot[48];
     int nh, seq;
+    int cbcalls, cbfound;       /* ticket callback invocations during the current connection; whether the last one was told "found" */
 } thr_t;
 static thr_t g_thr[MAXT];
 static __thread thr_t *g_me;
@@ -82,6 +89,29 @@ static void ticket_key_material(int k, unsigned char name[16], unsigned char sym
     for (i = 0; i < 32; i++) { sym[i] = (unsigned char) (k * 31 + i * 3 + 1); mac[i] = (unsigned char) (k * 17 + i * 5 + 2); }
 }
 
+/* the application's session ticket callback: runs with no library lock held (getTicketKeys releases g_sessTicketLock
+   around it); the window is logged with two stamps */
+static int g_cb_usec = -1;
+static int32 ticket_cb(void *keys, unsigned char name[16], short found)
+{
+    thr_t *t = g_me;
+    long c0 = atomic_fetch_add(&g_clock, 1), c1;
+    int k = ((int) name[0] - 0xA0) / 7;
+    (void) keys;
+    if (t)
+    {
+        struct timespec ts;
+        t->rng ^= t->rng << 13; t->rng ^= t->rng >> 7; t->rng ^= t->rng << 17;
+        ts.tv_sec = 0; ts.tv_nsec = g_cb_usec > 0 ? (long) ((t->rng >> 33) % (unsigned) g_cb_usec) * 1000L : 0;
+        sched_yield();
+        if (ts.tv_nsec) nanosleep(&ts, NULL);
+        t->cbcalls++; t->cbfound = found ? 1 : 0;
+    }
+    c1 = atomic_fetch_add(&g_clock, 1);
+    logev("{\"th\":%d,\"op\":\"cb\",\"k\":%d,\"found\":%d,\"t0\":%ld,\"t1\":%ld}", t ? t->id : -1, k, found ? 1 : 0, c0, c1);
+    return found ? PS_SUCCESS : PS_FAILURE;
+}
+
 /* shuttle bytes from src to dst; returns bytes moved; collects plaintext */
 static int shuttle(ssl_t *src, ssl_t *dst, unsigned char *rx, int *rxn, int *err)
 {
@@ -115,7 +145,7 @@ static void do_conn(thr_t *t, const char *hname, const char *ver, int suite, con
     sslSessOpts_t so, co;
     ssl_t *s = NULL, *c = NULL;
     sslSessionId_t *sid = NULL;
-    psProtocolVersion_t pv = !strcmp(ver, "T13") ? v_tls_1_3 : !strcmp(ver, "T12") ? v_tls_1_2 : v_tls_1_1;
+    psProtocolVersion_t pv = !strncmp(ver, "T13", 3) ? v_tls_1_3 : !strcmp(ver, "T12") ? v_tls_1_2 : v_tls_1_1;
     psCipher16_t cs = (psCipher16_t) suite;
     unsigned char crx[4096], srx[4096], msg[64];
     int crxn = 0, srxn = 0, err = 0, i, hc = 0, dataok = 0, resc = 0, ress = 0, tk0 = -1, tk1 = -1, hadid = 0;
@@ -138,6 +168,14 @@ static void do_conn(thr_t *t, const char *hname, const char *ver, int suite, con
        ephemeral-key cache is regenerated while other threads read it */
     { unsigned hv = 0; const char *q; static atomic_long nconn; for (q = hname; *q; q++) hv = hv * 31 + (unsigned char) *q;
       co.ecFlags = ((hv + (unsigned) atomic_fetch_add(&nconn, 1)) & 1) ? SSL_OPT_SECP384R1 : SSL_OPT_SECP256R1; }
+    if (!strcmp(ver, "T13F"))
+    {
+        /* finite-field key share only */
+        uint16_t g = 256;
+        matrixSslSessOptsSetKeyExGroups(&so, &g, 1, 1);
+        matrixSslSessOptsSetKeyExGroups(&co, &g, 1, 1);
+    }
+    t->cbcalls = 0; t->cbfound = -1;
     t0 = atomic_fetch_add(&g_clock, 1);
     rc = matrixSslNewServerSession(&s, g_ks, NULL, &so);
     if (rc >= 0) rc = matrixSslNewClientSession(&c, g_kc, sid, pv == v_tls_1_3 ? NULL : &cs, pv == v_tls_1_3 ? 0 : 1, NULL, NULL, NULL, NULL, &co);
@@ -174,8 +212,8 @@ static void do_conn(thr_t *t, const char *hname, const char *ver, int suite, con
     if (sid && sid->sessionTicket && sid->sessionTicketLen >= 16) tk1 = ((int) sid->sessionTicket[0] - 0xA0) / 7;
 #endif
     if (sid && sid->psk && sid->psk->pskIdLen >= 16) tk1 = ((int) sid->psk->pskId[0] - 0xA0) / 7;
-    logev("{\"th\":%d,\"op\":\"conn\",\"seq\":%d,\"name\":\"%s\",\"ver\":\"%s\",\"want\":\"%s\",\"t0\":%ld,\"t1\":%ld,\"rcn\":%d,\"hc\":%d,\"dataok\":%d,\"resc\":%d,\"ress\":%d,\"tk0\":%d,\"tk1\":%d,\"hadid\":%d,\"keep\":%d}",
-        t->id, t->seq++, hname, ver, want, t0, t1, (int) rc, hc, dataok, resc, ress, tk0, tk1, hadid, keep);
+    logev("{\"th\":%d,\"op\":\"conn\",\"seq\":%d,\"name\":\"%s\",\"ver\":\"%s\",\"want\":\"%s\",\"t0\":%ld,\"t1\":%ld,\"rcn\":%d,\"hc\":%d,\"dataok\":%d,\"resc\":%d,\"ress\":%d,\"tk0\":%d,\"tk1\":%d,\"hadid\":%d,\"keep\":%d,\"cbcalls\":%d,\"cbf\":%d}",
+        t->id, t->seq++, hname, ver, want, t0, t1, (int) rc, hc, dataok, resc, ress, tk0, tk1, hadid, keep, t->cbcalls, t->cbfound);
 }
 
 static void *thread_main(void *arg)
@@ -210,14 +248,29 @@ static void *thread_main(void *arg)
             t1 = atomic_fetch_add(&g_clock, 1);
             logev("{\"th\":%d,\"op\":\"shut\",\"seq\":%d,\"slot\":%d,\"t0\":%ld,\"t1\":%ld}", t->id, t->seq++, k, t0, t1);
         }
+        else if (!strcmp(op, "nap"))
+        {
+            /* nap <usec>: pacing only (nothing is logged) */
+            struct timespec ts; ts.tv_sec = 0; ts.tv_nsec = (long) atoi(a) * 1000L; nanosleep(&ts, NULL);
+        }
         else if (!strcmp(op, "keyadd") || !strcmp(op, "keydel"))
         {
             unsigned char name[16], sym[32], mac[32];
             long t0 = atomic_fetch_add(&g_clock, 1), t1;
             int32 rc;
             ticket_key_material(atoi(a), name, sym, mac);
-            if (!strcmp(op, "keyadd")) rc = matrixSslLoadSessionTicketKeys(g_ks, name, sym, 32, mac, 32);
-            else rc = matrixSslDeleteSessionTicketKey(g_ks, name);
+            /* key names stay unique in the list (the library would accept a second key of the same name, and a deletion by
+               name would then remove whichever of the two is not in use): a name that may still be loaded is not loaded again */
+            if (!strcmp(op, "keyadd"))
+            {
+                if (atomic_exchange(&g_loaded[atoi(a) & 63], 1) == 1) rc = -100;
+                else rc = matrixSslLoadSessionTicketKeys(g_ks, name, sym, 32, mac, 32);
+            }
+            else
+            {
+                rc = matrixSslDeleteSessionTicketKey(g_ks, name);
+                if (rc >= 0) atomic_store(&g_loaded[atoi(a) & 63], 0);
+            }
             t1 = atomic_fetch_add(&g_clock, 1);
             logev("{\"th\":%d,\"op\":\"%s\",\"seq\":%d,\"k\":%d,\"t0\":%ld,\"t1\":%ld,\"rcn\":%d}", t->id, op, t->seq++, atoi(a), t0, t1, (int) rc);
         }
@@ -243,6 +296,7 @@ int main(int argc, char **argv)
         int t = atoi(line);
         char *sp = strchr(line, ' ');
         if (line[0] == '#' || !sp || t < 0 || t >= MAXT) continue;
+        if (!strncmp(sp + 1, "ticketcb", 8)) { g_cb_usec = atoi(sp + 9); continue; }
         if (g_thr[t].nops < MAXOPS) snprintf(g_thr[t].ops[g_thr[t].nops++], 96, "%s", sp + 1);
         if (t + 1 > n) n = t + 1;
     }
@@ -253,6 +307,8 @@ int main(int argc, char **argv)
     if (matrixSslLoadKeys(g_kc, NULL, NULL, NULL, TK "/RSA/2048_RSA_CA.pem", NULL) < 0) return 2;
     ticket_key_material(0, name, sym, mac);
     matrixSslLoadSessionTicketKeys(g_ks, name, sym, 32, mac, 32);
+    atomic_store(&g_loaded[0], 1);
+    if (g_cb_usec >= 0) matrixSslSetSessionTicketCallback(g_ks, ticket_cb);
     for (i = 0; i < n; i++) pthread_create(&th[i], NULL, thread_main, &g_thr[i]);
     for (i = 0; i < n; i++) pthread_join(th[i], NULL);
     for (i = 0; i < n; i++) for (k = 0; k < g_thr[i].nev; k++) fprintf(out, "%s\n", g_thr[i].ev[k].s);
